@@ -612,6 +612,11 @@ def judge(cfg, sysd, pts, n_inner, irregular=False):
 def finding_key(cfg, sysd, sg, verdict, variant=None, case=None):
     """stable key of the input class a failing case belongs to"""
     nm = cfg["name"]
+    # the classes that are still open findings come first: a conjunction with an already repaired class (e.g. keep_unsynchronized x
+    # callbacks, fixed by 35adc5c) must not hide them behind a key that is no longer "known"
+    if sysd["name"] == "tp0m" and ((cfg["fam"] == "whfast" and ("/modifiedkick/" in nm or "/lazy/" in nm)) or
+                                   (cfg["fam"] == "saba" and int(nm.split("/")[1], 16) >= 0x100)):
+        return "C01:jacobi-gravity-massive-type0-testparticles"
     if case and case.get("cb") == "callbacks" and case.get("keep") == 1 and cfg["fam"] in ("whfast", "saba"):
         return "C01:keep-unsynchronized-with-timestep-callbacks"
     if variant == "field-plateau" and cfg["fam"] in WH_FAMILY:
